@@ -999,14 +999,20 @@ def getlapFull (ph : Phys) (lapsize : Int) : M Unit := do
   let c ← getlap ph lapsize (ph.work + lapsize.toNat + 4) 0
   if c < lapsize then doLapout
 
-/-- `_ov_64_seek_lap` / `_ov_d_seek_lap` -/
-def seekLap (ph : Phys) (localseek : M Int) : M Int := do
-  let vf ← get
-  if vf.ready < OPENED then return OV_EINVAL
+/-- the first half of a lapped seek: make the decoder ready and collect the lapping samples at the old position -/
+def lapPrefix (ph : Phys) : M Int := do
   let r ← initset ph (ph.work)
   if r ≠ 0 then return r
   let vf ← get
   getlapFull ph (shr (curInfo vf).bs0 (1 + vf.hs))
+  return 0
+
+/-- `_ov_64_seek_lap` / `_ov_d_seek_lap` -/
+def seekLap (ph : Phys) (localseek : M Int) : M Int := do
+  let vf ← get
+  if vf.ready < OPENED then return OV_EINVAL
+  let r ← lapPrefix ph
+  if r ≠ 0 then return r
   let r2 ← localseek
   if r2 ≠ 0 then return r2
   let r3 ← initprime ph (ph.work)
